@@ -142,6 +142,11 @@ pub fn replay_any(spec: &ShardSpec, hist: &[String], quiet: bool) -> i32 {
 
 const HS4: [u8; 4] = [H_GOOD, H_LOW, H_CONST, H_TAG];
 
+fn as_set(mut x: ShardSpec) -> ShardSpec {
+    x.world = "set".into();
+    x
+}
+
 pub struct Plan {
     pub level: &'static str,
     pub shards: Vec<ShardSpec>,
@@ -327,6 +332,9 @@ pub fn plan(prop: &str, tier: &str) -> Option<Plan> {
                     s.push(e2(prop, "tk", H_CONST, "look1+mut+ch0+shape2", &fl, if prof == "asan" { 2 } else { 3 }, prof, 45.0));
                     s.push(e2(prop, "zst", H_GOOD, "look+mut+ch1+bulk2+shape2+iterlite", &fl, 1, prof, 45.0));
                     s.push(e1(prop, "u32", H_TAG, 0, "look1+mut+ch1+bulk+shape", &fl, if prof == "asan" { 48 } else { 64 }, 1, 1, prof, 45.0));
+                    s.push(as_set(e1(prop, "tk", H_GOOD, 0, "skey+sshape", &fl, if prof == "asan" { 33 } else { 64 }, 1, 1, prof, 45.0)));
+                    s.push(as_set(e2(prop, "tk", H_LOW, "skey+sshape2", &fl, 3, prof, 45.0)));
+                    s.push(as_set(e2(prop, "zst", H_GOOD, "skey+sshape2", &fl, 1, prof, 45.0)));
                 }
                 bounds = json!({"E1": "Tk: d<=1 at N=64 / d<=2 at N=18 (chk), d<=1 at N=31..48 (asan)", "E2": "fixpoint u=3 (Tk; u=2 for HConst under asan), ZST", "profiles": "asan (optimised, assertions off) and chk (hashbrown debug assertions on)"});
             } else {
@@ -339,6 +347,10 @@ pub fn plan(prop: &str, tier: &str) -> Option<Plan> {
                     s.push(e2(prop, "tk", H_CONST, "look1+mut+ch0+shape2", &fl, 4, prof, 1200.0));
                     s.push(e2(prop, "zst", H_GOOD, "look+mut+ch1+bulk2+shape2+iterlite", &fl, 1, prof, 200.0));
                     s.push(e1(prop, "u32", H_TAG, 0, "look1+mut+ch1+bulk+shape", &fl, 130, 1, 1, prof, 900.0));
+                    s.push(as_set(e1(prop, "tk", H_GOOD, 0, "skey+sshape+siter", &fl, 64, 1, 1, prof, 900.0)));
+                    s.push(as_set(e1(prop, "tk", H_LOW, 0, "skey+sshape", &fl, 31, 2, 1, prof, 1200.0)));
+                    s.push(as_set(e2(prop, "tk", H_LOW, "skey+sshape2", &fl, 4, prof, 1200.0)));
+                    s.push(as_set(e2(prop, "zst", H_GOOD, "skey+sshape2", &fl, 1, prof, 100.0)));
                 }
                 bounds = json!({"E1": "Tk: d<=1 at N=130, d<=2 at N=33 (4 hashers, both profiles)", "E2": "fixpoint u=5/4 (Tk), ZST"});
             }
@@ -353,7 +365,9 @@ pub fn plan(prop: &str, tier: &str) -> Option<Plan> {
                 s.push(e1(prop, "tk", H_CONST, 0, "mut+ch1+bulk+shape+iter", &[], 40, 1, 1, "chk", 45.0));
                 s.push(e2(prop, "tk", H_GOOD, "mut+ch0+shape2+iterlite", &[], 3, "chk", 45.0));
                 s.push(e2(prop, "tk", H_LOW, "mut+ch0+shape2+iterlite", &[], 3, "chk", 45.0));
-                bounds = json!({"E1": "Tk: d<=2 at N=20, d<=1 at N=64, iterators dropped/forgotten at every prefix (<=40 elements) ", "E2": "fixpoint u=3"});
+                s.push(as_set(e1(prop, "tk", H_GOOD, 0, "skey+sshape+siter", &[], 40, 1, 1, "chk", 45.0)));
+                s.push(as_set(e2(prop, "tk", H_LOW, "skey+sshape2", &[], 3, "chk", 45.0)));
+                bounds = json!({"sets": "Tk sets: d<=1 at N=40 with every iterator prefix; E2 fixpoint u=3", "E1": "Tk: d<=2 at N=20, d<=1 at N=64, iterators dropped/forgotten at every prefix (<=40 elements) ", "E2": "fixpoint u=3"});
             } else {
                 for &hk in &HS4 {
                     s.push(e1(prop, "tk", hk, 0, a, &[], 40, 2, 1, "chk", 1200.0));
@@ -362,20 +376,26 @@ pub fn plan(prop: &str, tier: &str) -> Option<Plan> {
                 s.push(e2(prop, "tk", H_GOOD, "mut+ch0+shape2+iterlite", &[], 5, "chk", 1200.0));
                 s.push(e2(prop, "tk", H_LOW, "mut+ch0+shape2+iterlite", &[], 4, "chk", 1200.0));
                 s.push(e2(prop, "tk", H_CONST, "mut+ch0+shape2+iterlite", &[], 4, "chk", 1200.0));
-                bounds = json!({"E1": "Tk: d<=2 at N=40, d<=1 at N=130 (4 hashers)", "E2": "fixpoint u=5/4"});
+                s.push(as_set(e1(prop, "tk", H_GOOD, 0, "skey+sshape+siter", &[], 130, 1, 1, "chk", 900.0)));
+                s.push(as_set(e1(prop, "tk", H_LOW, 0, "skey+sshape/skey+siter", &[], 33, 2, 1, "chk", 1200.0)));
+                s.push(as_set(e2(prop, "tk", H_LOW, "skey+sshape2", &[], 5, "chk", 1200.0)));
+                bounds = json!({"sets": "Tk sets: d<=1 at N=130, d<=2 at N=33; E2 fixpoint u=5", "E1": "Tk: d<=2 at N=40, d<=1 at N=130 (4 hashers)", "E2": "fixpoint u=5/4"});
             }
         }
         "C08" => {
             let a = "mut1+ch0+shape+iter/iter";
             if q {
                 for &hk in &HS4 {
-                    s.push(e1(prop, "u32", hk, 0, a, &[], 40, 2, 1, "chk", 45.0));
+                    s.push(e1(prop, "u32", hk, 0, a, &[], 33, 2, 1, "chk", 45.0));
                 }
                 s.push(e1(prop, "u32", H_GOOD, 0, "iter", &[], 130, 1, 0, "chk", 45.0));
                 s.push(e1(prop, "tk", H_GOOD, 0, a, &[], 31, 2, 1, "chk", 45.0));
                 s.push(e2(prop, "u32", H_GOOD, "mut1+ch0+shape2+iter", &[], 3, "chk", 45.0));
                 s.push(e2(prop, "zst", H_GOOD, "mut+bulk2+shape2+iter", &[], 1, "chk", 45.0));
-                bounds = json!({"E1": "iterator checks at every state with <=1 deviation up to N=40 (4 hashers) and on the growth path to N=130; every consumption prefix for <=40 elements", "E2": "fixpoint u=3, ZST"});
+                s.push(as_set(e1(prop, "u32", H_GOOD, 0, "skey+sshape+siter/siter", &[], 18, 2, 1, "chk", 45.0)));
+                s.push(as_set(e1(prop, "tk", H_LOW, 0, "siter", &[], 64, 1, 0, "chk", 45.0)));
+                s.push(as_set(e2(prop, "u32", H_GOOD, "skey+sshape2+siter", &[], 3, "chk", 45.0)));
+                bounds = json!({"sets": "HashSet iter/into_iter/drain/drain_filter at every state with <=1 deviation up to N=18, growth path to 64, E2 fixpoint u=3", "E1": "iterator checks at every state with <=1 deviation up to N=33 (4 hashers) and on the growth path to N=130; every consumption prefix for <=40 elements", "E2": "fixpoint u=3, ZST"});
             } else {
                 for &hk in &HS4 {
                     s.push(e1(prop, "u32", hk, 0, a, &[], 64, 2, 1, "chk", 1200.0));
@@ -386,7 +406,12 @@ pub fn plan(prop: &str, tier: &str) -> Option<Plan> {
                 s.push(e2(prop, "u32", H_GOOD, "mut1+ch0+shape2+iter", &[], 5, "chk", 1200.0));
                 s.push(e2(prop, "u32", H_CONST, "mut1+ch0+shape2+iter", &[], 4, "chk", 1200.0));
                 s.push(e2(prop, "zst", H_GOOD, "mut+bulk2+shape2+iter", &[], 1, "chk", 100.0));
-                bounds = json!({"E1": "iterator checks at every state with <=1 deviation up to N=64 and <=2 deviations up to N=31", "E2": "fixpoint u=5/4, ZST"});
+                for &hk in &HS4 {
+                    s.push(as_set(e1(prop, "u32", hk, 0, "skey+sshape+siter/siter", &[], 64, 2, 1, "chk", 1200.0)));
+                }
+                s.push(as_set(e1(prop, "tk", H_LOW, 0, "siter", &[], 130, 1, 0, "chk", 600.0)));
+                s.push(as_set(e2(prop, "u32", H_GOOD, "skey+sshape2+siter", &[], 5, "chk", 1200.0)));
+                bounds = json!({"sets": "HashSet iterators at every state with <=1 deviation up to N=64 (4 hashers), growth path to 130, E2 fixpoint u=5", "E1": "iterator checks at every state with <=1 deviation up to N=64 and <=2 deviations up to N=31", "E2": "fixpoint u=5/4, ZST"});
             }
         }
         "C09" => {
